@@ -184,6 +184,9 @@ var c01Files = map[string]string{
 	"/lib.tpl": "{% macro mm(a, b=1) export %}<{{ a }}:{{ b }}>{% endmacro %}",
 }
 
+// c01SharedBatches: one compiled template per resolver step / tag form, executed with every zoo value in turn
+func c01SharedBatches() int { return len(c01Steps) + len(c01TagFormList) }
+
 func c01Plan(tier string) (filterBatches, stepBatches, stepStride, tagBatches, grammar, rawBytes, resource int) {
 	if c01Filters == nil {
 		c01Init()
@@ -218,9 +221,72 @@ func c01Run(c *C) {
 		c01Grammar(c)
 	case idx < fb+sb+tb+gr+rb:
 		c01RawBytes(c)
-	default:
+	case idx < fb+sb+tb+gr+rb+len(c01Resource):
 		c01ResourceCase(c, idx-(fb+sb+tb+gr+rb))
+	default:
+		c01SharedSweep(c, idx-(fb+sb+tb+gr+rb+len(c01Resource)))
 	}
+}
+
+// c01SharedSweep compiles ONE template (a resolver step with a few second steps, or a tag form, written on the
+// variable v) and executes it with every zoo value bound to v, in a seed-dependent order and then in reverse:
+// whatever a compiled node remembers from the value it saw last must not hurt with the next one.
+func c01SharedSweep(c *C, i int) {
+	var src string
+	if i < len(c01Steps) {
+		st := c01Steps[i]
+		src = "{{ v" + st + " }}|{% if v" + st + " %}t{% endif %}|{% for x in v" + st + " %}{{ x }}{% endfor %}"
+		for k := 0; k < 4; k++ {
+			src += "|{{ v" + st + c01Steps[c.R.Intn(len(c01Steps))] + " }}"
+		}
+		src += "|{{ v.Name }}:{{ v.Email }}:{{ v.Hidden }}:{{ v.B }}:{{ v.Inner.Z }}:{{ v.Method }}:{{ v.PtrMethod }}:{{ v.Len }}:{{ v.String }}"
+	} else {
+		src = strings.ReplaceAll(c01TagFormList[i-len(c01Steps)], "X", "v")
+	}
+	set, _ := newSet(c01Files)
+	tpl, err := set.FromString(src)
+	c.Eval(1)
+	if (err != nil) == (tpl != nil) {
+		c.Fail("compile-result-shape", D{"source": src})
+		return
+	}
+	if err != nil {
+		c.Cover("shared_sweep_rejected")
+		return
+	}
+	entries := zooEntries("")
+	order := make([]int, len(entries))
+	for k := range order {
+		order[k] = k
+	}
+	for k := len(order) - 1; k > 0; k-- {
+		j := c.R.Intn(k + 1)
+		order[k], order[j] = order[j], order[k]
+	}
+	base := zooContext("")
+	base["incname"] = "/inc.tpl"
+	run := func(k int) bool {
+		base["v"] = entries[order[k]].val
+		out, xerr := c01Exec(tpl, base, k)
+		c.Eval(1)
+		if xerr != nil && out != "" && k%4 != 3 {
+			c.Fail("output-and-error", D{"source": src, "value": entries[order[k]].desc, "entry": k % 4})
+			return false
+		}
+		return true
+	}
+	for k := range order {
+		if !run(k) {
+			return
+		}
+	}
+	for k := len(order) - 1; k >= 0; k-- {
+		if !run(k) {
+			return
+		}
+	}
+	c.Nontrivial("shared:" + src)
+	c.Cover("shared_compile_sweep")
 }
 
 func c01FilterSweep(c *C, filter string, vi int) {
@@ -566,12 +632,12 @@ func init() {
 		Init: c01Init,
 		Cases: func(tier string) int {
 			a, b, _, t, g, r, rs := c01Plan(tier)
-			return a + b + t + g + r + rs
+			return a + b + t + g + r + rs + c01SharedBatches()
 		},
 		Run:         c01Run,
 		CaseTimeout: 30,
 		Rule: "four workloads in crash-isolated worker processes (panic => violation via recover, process death and hangs via the driver's progress log and watchdogs): " +
-			"(1) complete sweeps: every registered filter (from the verif hook) x every zoo value (about 100 Go values: nil, strings incl. invalid UTF-8, every int/uint/float kind with extremes/NaN/Inf, slices, arrays, maps with string/int/float/bool/named keys, structs with unexported and embedded fields, pointers incl. typed nil, Stringers, time, errors, *Value, functions of accepted and rejected shapes) x 35 parameters through ApplyFilter and {{ v|f:p }}; every zoo value x every resolver step x (quick: a seed-dependent 1/20, thorough: every) second step; 88 tag/operator forms x every zoo value in the argument slot; " +
+			"(1) complete sweeps: every registered filter (from the verif hook) x every zoo value (about 100 Go values: nil, strings incl. invalid UTF-8, every int/uint/float kind with extremes/NaN/Inf, slices, arrays, maps with string/int/float/bool/named keys, structs with unexported and embedded fields, pointers incl. typed nil, Stringers, time, errors, *Value, functions of accepted and rejected shapes) x 35 parameters through ApplyFilter and {{ v|f:p }}; every zoo value x every resolver step x (quick: a seed-dependent 1/20, thorough: every) second step; 88 tag/operator forms x every zoo value in the argument slot; the same steps and forms once more as ONE compiled template executed with every zoo value in turn (shuffled, then reversed); " +
 			"(2) grammar-generated programs over all tags/filters/operators with loader files, 3 contexts, TrimBlocks/LStripBlocks settings, the four Execute entry points; (3) byte-level mutations of the repository's fixtures and of generated programs; (4) 40 resource shapes (deep nesting, long chains, every macro recursion route, cyclic include/extends/import/ssi graphs). " +
 			"Oracle: exactly one of template/error, exactly one of output/error, no panic, no process death, every case finishes within the watchdog. distinct_nontrivial = distinct sweep cells, compiled programs and byte inputs.",
 		MinNontriv:  5000,
